@@ -278,9 +278,13 @@ class RawClient:
         deliver(self.proto, raw)
         return serial
 
-    def call_bus(self, member, sig='', trees=(), path='/org/freedesktop/DBus'):
+    def call_bus(self, member, sig='', trees=(), path='/org/freedesktop/DBus', with_interface=None):
         """Method call to org.freedesktop.DBus; returns the decoded reply (or None)."""
         fields = {1: path, 2: 'org.freedesktop.DBus', 3: member, 6: 'org.freedesktop.DBus'}
+        if with_interface is None:
+            with_interface = (self.serial + 1) % 5 != 4
+        if not with_interface:
+            del fields[2]       # INTERFACE is an optional header field of a method call
         # SENDER is the peer's to write and the bus's to overwrite: absent, truthful, or naming somebody else
         k = (self.serial + 1) % 3
         if self.name and k == 1:
@@ -332,7 +336,8 @@ class BusRig:
         deliver(p, b'BEGIN\r\n')
         self.clients.append(c)
         if hello:
-            r = c.call_bus('Hello')
+            # every third peer leaves the (optional) INTERFACE field out of its Hello
+            r = c.call_bus('Hello', with_interface=len(self.clients) % 3 != 0)
             if r is None or r['type'] != 2 or not r['body'] or not isinstance(r['body'][0], str):
                 raise RigFailure('Hello was answered with %r' % (r,))
             c.name = r['body'][0]
